@@ -77,9 +77,6 @@ class ParserConfig(Config):
         if not self.memoization:
             self.left_recursion = False
 
-        if self.namechars:
-            self.nameguard = True
-
         if isinstance(self.semantics, type):
             raise TypeError(
                 f'semantics must be an object instance or None, not class {self.semantics!r}',
